@@ -70,6 +70,9 @@ OPTIONS = {
 }
 PARENT_SRC = '''
 from typing import Iterator, Generator
+from nowhere_to_be_found import a, x
+from m import v as cyc
+from m import cyc as v
 class K:
     v: int = 0
     def __init__(self, a: int, *args, b=1, **kw): ...
